@@ -179,5 +179,17 @@ pub fn run(ctx: &mut Ctx) {
         let l = rng.below(8);
         let raw: Vec<u8> = (0..l).map(|_| rng.next_u64() as u8).collect();
         totality(ctx, &raw, "random-bytes", false);
+        // names are strings: input that is not UTF-8 cannot be a key path, quoted or not
+        for base in [plain.as_bytes(), spaced.as_bytes()] {
+            let mut m = base.to_vec();
+            let bad: &[u8] = *rng.pick(&[&b"\xff"[..], b"\xc3", b"\xed\xa0\x80", b"\xc0\x80", b"\xf8\x88\x80\x80\x80", b"\xe2\x82", b"\x80"]);
+            let at = rng.below(m.len() + 1);
+            let tail = m.split_off(at);
+            m.extend_from_slice(bad);
+            m.extend_from_slice(&tail);
+            if std::str::from_utf8(&m).is_err() {
+                totality(ctx, &m, "invalid-utf8", true);
+            }
+        }
     }
 }
